@@ -624,6 +624,25 @@ impl Exec {
                 );
             }
         }
+        // ---- C18 (builds with compute_checksum only): every segment the TCB emits, first
+        // transmission or retransmission, verifies under RFC 1071 with its pseudo header ----
+        if cfg!(feature = "compute_checksum") && w[0] == "emit" {
+            let ids = x.ids();
+            for i in self.last_emitted.clone() {
+                let mut seg = self.history[i].0.serialize();
+                seg.extend_from_slice(&self.history[i].1);
+                let with = super::c08_ref::with_pseudo(ids.local.address.to_u32(), ids.remote.address.to_u32(), 6, seg.len() as u16, &seg);
+                out.count("emitted_segments_checksummed");
+                if !super::c08_ref::verifies(&with) {
+                    let h = self.history[i].0;
+                    fail(
+                        out,
+                        &format!("segment emitted by {} (seq={} ack={} wnd={} len={} checksum={:#06x}) does not verify under RFC 1071", x.name(), h.seq, h.ack, h.wnd, self.history[i].1.len(), h.checksum),
+                        "emitted-tcp-checksum-invalid",
+                    );
+                }
+            }
+        }
         if !self.oracles.c17 {
             return;
         }
